@@ -489,3 +489,107 @@ class two_digit_year:
 
 
 CONTRACTS += [weekday_only, time_only, month_only, day_month, two_digit_year]
+
+
+# ---------------------------------------------------------------------------------------------------
+# C07: DATE_ORDER decides numeric dates
+
+ORDERS = ["DMY", "DYM", "MDY", "MYD", "YDM", "YMD"]
+SEPS = {"dash": "-", "slash": "/", "dot": ".", "space": " "}
+
+
+class numeric_order:
+    """C07 kernel: three numeric fields, the year written with four digits: the supplied DATE_ORDER
+    decides day / month / year whenever that reading is a valid date; optional HH:MM suffix."""
+
+    name = "parser._parser.parse/numeric-order"
+    func = "dateparser.parser._parser.parse"
+    props = ["C07"]
+
+    @classmethod
+    def cases(cls, thorough=False):
+        out = []
+        for o in ORDERS:
+            for sep in SEPS:
+                for lay in ((2, 2), (1, 1), (1, 2), (2, 1)):
+                    out.append(dict(DATE_ORDER=o, sep=sep, n1=lay[0], n2=lay[1], time=False))
+                if thorough or sep in ("dot", "space"):
+                    out.append(dict(DATE_ORDER=o, sep=sep, n1=2, n2=2, time=True))
+        return out
+
+    @staticmethod
+    def template(case):
+        o, sep = case["DATE_ORDER"], SEPS[case["sep"]]
+        small = [case["n1"], case["n2"]]
+        tpl = []
+        for i, letter in enumerate(o):
+            if i:
+                tpl.append(sep)
+            if letter == "Y":
+                tpl.append(("Y", 4))
+            else:
+                tpl.append((letter, small.pop(0)))
+        if case["time"]:
+            tpl += [" ", ("H", 2), ":", ("T", 2)]
+        return tpl
+
+    @staticmethod
+    def setup(inp, case):
+        from dateparser.parser import _parser
+        from pyvc.harness import build
+
+        st, now = _settings(inp, case)
+        s, f = build(inp, numeric_order.template(case))
+        return _parser.parse, (s, st), {}, dict(now=now, f=f)
+
+    @staticmethod
+    def post(case, g, out):
+        f = g["f"]
+        Y, m, D = f["Y"], f["M"], f["D"]
+        valid = And(Y >= 1, m >= 1, m <= 12, D >= 1, D <= dim(Y, m))
+        H = T = 0
+        if case["time"]:
+            H, T = f["H"], f["T"]
+            valid = And(valid, H <= 23, T <= 59)
+        if not out.ok:
+            return {"valid-reading=>parses": Not(valid)}
+        dt, per = out.value
+        return {
+            "valid-reading=>parses": True,
+            "valid-reading=>fields-by-DATE_ORDER": Implies(valid, same_fields(dt, Y, m, D, H, T)),
+            "valid-reading=>period-day": Implies(valid, per == "day"),
+        }
+
+
+class resolve_date_order:
+    """C07: the order tables: every key's list is its letters spelled out, its string the same
+    letters as %d/%m/%y (pins the tables, not only the lookup)."""
+
+    name = "parser.resolve_date_order"
+    func = "dateparser.parser.resolve_date_order"
+    props = ["C07"]
+
+    @staticmethod
+    def cases():
+        return [dict(order=o, lst=l) for o in ORDERS for l in (True, False)]
+
+    @staticmethod
+    def setup(inp, case):
+        from dateparser.parser import resolve_date_order as f
+
+        return f, (case["order"],), {"lst": case["lst"]}, {}
+
+    @staticmethod
+    def post(case, g, out):
+        names = {"D": "day", "M": "month", "Y": "year"}
+        dirs = {"D": "%d", "M": "%m", "Y": "%y"}
+        if not out.ok:
+            return {"no-exception": False}
+        if case["lst"]:
+            return {"no-exception": True,
+                    "list-spells-the-order": out.value == [names[c] for c in case["order"]]}
+        return {"no-exception": True,
+                "string-spells-the-order": out.value == "".join(dirs[c] for c in case["order"])}
+
+
+CONTRACTS += [numeric_order, resolve_date_order]
